@@ -45,7 +45,7 @@ BaseK == 1
 BaseTab == "A"
 BaseRS == "r0"
 Reg(m, sc) == mgr[m] # Null /\ scen[m][sc] # Null
-InSession(m, sc) == sess # Null /\ sess.m = m /\ (sess.sc = sc \/ sc \in sess.sibs)
+InSession(m, sc) == sess # Null /\ ((sess.m = m /\ sess.sc = sc) \/ <<m, sc>> \in sess.sibs)
 
 \* what a scenario is simulated with ----------------------------------------------------------------
 \* intended: own value, else the manager's base value, else the model's
@@ -58,7 +58,7 @@ Eff(m, sc) == [k |-> EffK(m, sc), tab |-> EffTab(m, sc), rs |-> EffRS(m, sc)]
 BaseEff == [k |-> BaseK, tab |-> dict[0], rs |-> BaseRS]
 \* observation after every action: every registered scenario that is not in the live session, and the base model
 AllEff == [m \in {x \in Mgrs : mgr'[x] # Null} |->
-             [sc \in {y \in Scs : scen'[m][y] # Null /\ ~(sess' # Null /\ sess'.m = m /\ (sess'.sc = y \/ y \in sess'.sibs))} |->
+             [sc \in {y \in Scs : scen'[m][y] # Null /\ ~(sess' # Null /\ ((sess'.m = m /\ sess'.sc = y) \/ <<m, y>> \in sess'.sibs))} |->
                 [k |-> IF scen'[m][sc].k > 0 THEN scen'[m][sc].k ELSE IF "D23_step_setting_sticks" \in Dev THEN mk'[m][sc] ELSE BaseK,
                  tab |-> IF scen'[m][sc].tab # "" THEN scen'[m][sc].tab ELSE dict'[tobj'[m][sc]],
                  rs |-> IF scen'[m][sc].rs # "" THEN scen'[m][sc].rs ELSE BaseRS]]]
@@ -104,15 +104,21 @@ SetLater(m, sc, k, tab, rs, channel) ==   \* settings supplied after registratio
     /\ Log([op |-> channel, m |-> m, sc |-> sc, k |-> k, tab |-> tab, rs |-> rs])
 \* channels: "RestRun" (POST /run with settings, then runs), "SetProp" (scenario.set_property_value; constants only)
 
-\* wide: the session steps every scenario of the manager that has the same run spec, not only sc
-Sibs(m, sc, wide) == IF wide THEN {y \in Scs \ {sc} : scen[m][y] # Null /\ EffRS(m, y) = EffRS(m, sc)} ELSE {}
-Begin(m, sc, k, tab, wide) ==    \* bptk.begin_session(scenarios=[sc, sibs..], scenario_managers=[m], settings={m: {sc: {...}}})
+\* A session names scenario managers and scenario names; it steps every registered scenario in the product.  wideS: all scenario
+\* names of manager m, wideM: all registered managers.  Step settings go to <<m, sc>> only; the other members are its siblings.
+Members(m, sc, wideS, wideM) ==     \* (built as a union of explicit singletons: TLC must be able to write the set to disk)
+    UNION {IF scen[mm][y] # Null THEN {<<mm, y>>} ELSE {} :
+              mm \in (IF wideM THEN {x \in Mgrs : mgr[x] # Null} ELSE {m}), y \in (IF wideS THEN {z \in Scs : scen[m][z] # Null} ELSE {sc})}
+Sibs(m, sc, wideS, wideM) == Members(m, sc, wideS, wideM) \ {<<m, sc>>}
+Begin(m, sc, k, tab, wideS, wideM) ==    \* bptk.begin_session(scenarios=[..], scenario_managers=[..], settings={m: {sc: {...}}})
     /\ "Begin" \in Ops /\ Reg(m, sc) /\ sess = Null
-    /\ (wide => "BeginWide" \in Ops /\ Sibs(m, sc, wide) # {})
+    /\ ((wideS \/ wideM) => "BeginWide" \in Ops /\ Sibs(m, sc, wideS, wideM) # {})
+    /\ (wideM => "BeginMgrs" \in Ops)
+    /\ \A p \in Sibs(m, sc, wideS, wideM) : EffRS(p[1], p[2]) = EffRS(m, sc)          \* one time grid for the whole session
     /\ scen' = [scen EXCEPT ![m][sc] = [k |-> IF k > 0 THEN k ELSE @.k, tab |-> IF tab # "" THEN tab ELSE @.tab, rs |-> @.rs]]
-    /\ sess' = [m |-> m, sc |-> sc, sibs |-> Sibs(m, sc, wide), k |-> 0, tab |-> "", steps |-> 0]       \* k = 0: nothing applied yet
+    /\ sess' = [m |-> m, sc |-> sc, sibs |-> Sibs(m, sc, wideS, wideM), k |-> 0, tab |-> "", steps |-> 0]       \* k = 0: nothing applied yet
     /\ UNCHANGED <<mgr, mk, tobj, dict, nextObj>>
-    /\ Log([op |-> "Begin", m |-> m, sc |-> sc, k |-> k, tab |-> tab, sibs |-> Sibs(m, sc, wide)])
+    /\ Log([op |-> "Begin", m |-> m, sc |-> sc, k |-> k, tab |-> tab, sibs |-> Sibs(m, sc, wideS, wideM)])
 
 Step(k, tab) ==            \* bptk.run_step(settings={m: {sc: {...}}}): settings hold from this step on, for this session
     /\ "Step" \in Ops /\ sess # Null /\ sess.steps < 3
@@ -123,18 +129,18 @@ Step(k, tab) ==            \* bptk.run_step(settings={m: {sc: {...}}}): settings
            t0 == IF sess.steps = 0 THEN EffTab(m, sc) ELSE sess.tab
            k1 == IF k > 0 THEN k ELSE k0
            t1 == IF tab # "" THEN tab ELSE t0
-           first(y) == sess.steps = 0 /\ y \in sess.sibs                \* a sibling's simulation is built from ITS scenario
+           first(p) == sess.steps = 0 /\ p \in sess.sibs                \* a sibling's simulation is built from ITS scenario
        IN /\ sess' = [sess EXCEPT !.k = k1, !.tab = t1, !.steps = @ + 1]
-          /\ mk' = [mk EXCEPT ![m] = [y \in Scs |-> IF y = sc THEN k1                \* the step mutates the scenario's model
-                                                    ELSE IF first(y) /\ scen[m][y].k > 0 THEN scen[m][y].k ELSE mk[m][y]]]
+          /\ mk' = [mm \in Mgrs |-> [y \in Scs |-> IF mm = m /\ y = sc THEN k1                \* the step mutates the scenario's model
+                                                  ELSE IF first(<<mm, y>>) /\ scen[mm][y].k > 0 THEN scen[mm][y].k ELSE mk[mm][y]]]
           /\ dict' = [id \in DOMAIN dict |->
                          IF id = tobj[m][sc] THEN t1
-                         ELSE IF \E y \in sess.sibs : first(y) /\ tobj[m][y] = id /\ scen[m][y].tab # ""
-                              THEN scen[m][CHOOSE y \in sess.sibs : tobj[m][y] = id /\ scen[m][y].tab # ""].tab
+                         ELSE IF \E p \in sess.sibs : first(p) /\ tobj[p[1]][p[2]] = id /\ scen[p[1]][p[2]].tab # ""
+                              THEN LET q == CHOOSE p \in sess.sibs : tobj[p[1]][p[2]] = id /\ scen[p[1]][p[2]].tab # "" IN scen[q[1]][q[2]].tab
                               ELSE dict[id]]
           /\ Log([op |-> "Step", m |-> m, sc |-> sc, k |-> k, tab |-> tab, n |-> sess.steps,
                   res |-> [k |-> k1, tab |-> t1, rs |-> EffRS(m, sc)],
-                  sibs |-> [y \in sess.sibs |-> Eff(m, y)]])                   \* a sibling is stepped with its own settings, always
+                  sibs |-> {[m |-> p[1], sc |-> p[2], eff |-> Eff(p[1], p[2])] : p \in sess.sibs}])                   \* a sibling is stepped with its own settings, always
 
 End ==                     \* bptk.end_session(): the live simulation is dropped
     /\ "End" \in Ops /\ sess # Null
@@ -161,7 +167,7 @@ DoRegister == \E m \in Mgrs, sc \in Scs, k \in KVals, tab \in Tabs, rs \in RSs :
 DoRun == \E m \in Mgrs, sc \in Scs : Run(m, sc)
 DoRestRun == \E m \in Mgrs, sc \in Scs, k \in KVals, tab \in Tabs, rs \in RSs : SetLater(m, sc, k, tab, rs, "RestRun")
 DoSetProp == \E m \in Mgrs, sc \in Scs, k \in KVals : SetLater(m, sc, k, "", "", "SetProp")
-DoBegin == \E m \in Mgrs, sc \in Scs, k \in KVals, tab \in Tabs, wide \in BOOLEAN : Begin(m, sc, k, tab, wide)
+DoBegin == \E m \in Mgrs, sc \in Scs, k \in KVals, tab \in Tabs, wideS \in BOOLEAN, wideM \in BOOLEAN : Begin(m, sc, k, tab, wideS, wideM)
 DoStep == \E k \in KVals, tab \in Tabs : Step(k, tab)
 DoReset == \E m \in Mgrs, sc \in Scs : ResetCache(m, sc)
 Next == DoRegMgr \/ DoRegister \/ DoRun \/ DoRestRun \/ DoSetProp \/ DoBegin \/ DoStep \/ End \/ DoReset
@@ -175,7 +181,7 @@ Touched == IF hist' = hist THEN <<"", "">>
            ELSE LET h == hist'[Len(hist')] IN IF "sc" \in DOMAIN h THEN <<h.m, h.sc>> ELSE IF h.op = "End" THEN <<sess.m, sess.sc>> ELSE <<"", "">>
 Isolated == [][\A m \in Mgrs, sc \in Scs : (Reg(m, sc) /\ <<m, sc>> # Touched /\ ~InSession(m, sc)) => Eff(m, sc)' = Eff(m, sc)]_vars
 \* C06: the scenarios stepped alongside the one that receives step settings keep what they are simulated with
-SiblingsKeep == [][(sess # Null /\ sess' # Null) => \A y \in sess.sibs : Eff(sess.m, y)' = Eff(sess.m, y)]_vars
+SiblingsKeep == [][(sess # Null /\ sess' # Null) => \A p \in sess.sibs : Eff(p[1], p[2])' = Eff(p[1], p[2])]_vars
 \* C07: a scenario is simulated with its own settings over the manager's base values over the model's values
 Exact == \A m \in Mgrs, sc \in Scs : (Reg(m, sc) /\ ~InSession(m, sc)) =>
             /\ Eff(m, sc).k = IF scen[m][sc].k > 0 THEN scen[m][sc].k ELSE BaseK
